@@ -54,12 +54,30 @@ func genStmt(depth int, loopOnly bool) ast.Stmt {
 		th := genStmt(depth-1, false)
 		return &ast.IfStmt{Condition: cond, ThenBranch: th, ElseBranch: genStmt(depth-1, false)}
 	case 7:
-		cond := stProbe()
+		var cond ast.Expr
+		if verifChoice(2) == 0 {
+			cond = stProbe()
+		} else {
+			cond = &ast.Literal{Value: true, Line: stNextLine()} // endless unless left by break/return
+		}
 		return &ast.While{Condition: cond, Body: genStmt(depth-1, false)}
 	case 8:
-		init := &ast.ExpressionStatement{Expression: stProbe()}
-		cond := stProbe()
-		inc := stProbe()
+		// every combination of present/absent initializer and increment; the parser supplies a
+		// literal true for an omitted condition
+		var init ast.Stmt
+		var cond, inc ast.Expr
+		v := verifChoice(8)
+		if v&1 != 0 {
+			init = &ast.ExpressionStatement{Expression: stProbe()}
+		}
+		if v&2 != 0 {
+			cond = stProbe()
+		} else {
+			cond = &ast.Literal{Value: true}
+		}
+		if v&4 != 0 {
+			inc = stProbe()
+		}
 		return &ast.ForStmt{Initializer: init, Condition: cond, Increment: inc, Body: genStmt(depth-1, false)}
 	default:
 		a := genStmt(depth-1, false)
@@ -189,7 +207,10 @@ func refExecTrack(s ast.Stmt) int {
 		}
 		return cNormal
 	case *ast.While:
-		for {
+		for it := 0; ; it++ {
+			if it > vpLimit {
+				verifAssume(false) // more iterations than the bound
+			}
 			v, failed := refEval(n.Condition)
 			if failed {
 				return cError
@@ -215,7 +236,10 @@ func refExecTrack(s ast.Stmt) int {
 				return c
 			}
 		}
-		for {
+		for it := 0; ; it++ {
+			if it > vpLimit {
+				verifAssume(false) // more iterations than the bound
+			}
 			if n.Condition != nil {
 				v, failed := refEval(n.Condition)
 				if failed {
